@@ -138,6 +138,9 @@ def _zero_side(body, edges_true, edges_false, truth_at_zero):
     return edges_true if truth_at_zero else edges_false
 
 
+FD_RETURNING_SYSCALLS = {SYS_openat2}
+
+
 def r3_fd_zero_valid(ctx):
     """Every predicate classifying a raw descriptor number must put 0 on the side that can succeed."""
     F = ctx.facts
@@ -150,6 +153,10 @@ def r3_fd_zero_valid(ctx):
             return False
         for o in T.origins_of_operand(body, bb, idx, op):
             if o.kind == "call" and (o.term.callee or "").endswith("AsRawFd::as_raw_fd"):
+                return True
+            # the raw return value of a descriptor-returning system call
+            if o.kind == "call" and o.term.callee == "libc::syscall" and o.term.args and o.term.args[0].is_const and \
+               o.term.args[0].int_value() in FD_RETURNING_SYSCALLS:
                 return True
             if o.kind == "param" and o.fpath[-1:] == ("inner",) and "CBorrowedFd" in (body.local_tys[o.detail] if isinstance(o.detail, int) else ""):
                 return True
@@ -268,16 +275,29 @@ def r5_probe_discipline(ctx):
     enoent_eq = [e.key() for br in brs if br["errno"] == ENOENT for e in br["eq"]]
     toolong_eq = [e.key() for br in brs if br["errno"] == ENAMETOOLONG for e in br["eq"]]
     # the no-follow fallback carries the caller's flags
-    # opens that are also performed after a successful probe (the parent directory of the link) are not the fallback
-    nofollow = fb
+    # the fallback is the no-follow open of the very path that was probed (the open of the link's parent directory,
+    # which follows a successful probe, takes the directory half of the split path instead)
+    pk = origin_keys(T.origins_of_arg(probes[0], 2))
+    nofollow = [t for t in fb if origin_keys(T.origins_of_arg(t, 2)) & pk]
+    if not nofollow:
+        return [violated("C09.R5", "open_follow:probe", b.where(), "no no-follow fallback open of the probed path found (anchor drift)")]
     reach_wo_enoent = cfg.edge_targets_reachable(fe[0], cut_edges=enoent_eq)
-    bad = [t for t in nofollow if t.bb in reach_wo_enoent and t.bb not in cfg.edge_targets_reachable(fe[1], cut_edges=[e.key() for e in fe[0]])]
+    bad = [t for t in nofollow if t.bb in reach_wo_enoent]
     if bad:
         out.append(violated("C09.R5", "open_follow:fallback-only-enoent", bad[0].where(),
                             "a failure of the readlink probe other than ENOENT (ENAMETOOLONG for a long path, EMFILE/ENOMEM...) selects the no-follow open: "
                             "with O_PATH it returns the magic-link itself, a different object than the handle refers to"))
     else:
         out.append(holds("C09.R5", "open_follow:fallback-only-enoent", probes[0].where(), "after a failed probe the no-follow open is reachable only through the ENOENT branch"))
+    # a link whose body could be read is always followed, whatever the body looks like ('pipe:[n]', 'socket:[n]', ' (deleted)')
+    reach_ok = cfg.edge_targets_reachable(fe[1], cut_edges=[e.key() for e in fe[0]])
+    bad = [t for t in nofollow if t.bb in reach_ok]
+    if bad:
+        out.append(violated("C09.R5", "open_follow:link-always-followed", bad[0].where(),
+                            "after a successful readlink probe the no-follow open is still reachable: links whose body does not look like a path "
+                            "(anonymous inodes: 'pipe:[n]', 'socket:[n]') are then opened as the procfs symlink itself"))
+    else:
+        out.append(holds("C09.R5", "open_follow:link-always-followed", probes[0].where(), "a readable link is always opened through the magic-link open"))
     reach_wo_toolong = cfg.edge_targets_reachable(fe[0], cut_edges=toolong_eq)
     if sinks[0].bb in reach_wo_toolong:
         out.append(violated("C09.R5", "open_follow:follow-needs-link", sinks[0].where(), "the magic-link open is reachable after a failed probe that does not prove the target is a link"))
@@ -291,5 +311,5 @@ RULES = [
     ("C09.R2", r2_symlink_refused, 3, False),
     ("C09.R3", r3_fd_zero_valid, 2, False),
     ("C09.R4", r4_final_open, 2, False),
-    ("C09.R5", r5_probe_discipline, 2, False),
+    ("C09.R5", r5_probe_discipline, 3, False),
 ]
